@@ -24,3 +24,11 @@ package metadata
 //@   requires i != nil
 //@   assigns deref(i)
 //@   ensures deref(i) == id
+
+//@ # ---------------------------------------------------------------- C11 (metadata strings) ---
+//@ # Every quoted string printed from package metadata (metadata strings, names and string fields of specialised
+//@ # nodes) is enc.Quote of the string.
+//@ func quote
+//@   props C11
+//@   assigns nothing
+//@   ensures exists(v bytepred, enc.quotedLike(v) && enc.isQuoted(result, s, v))
